@@ -700,7 +700,11 @@ class Sim:
             return
         if t.pending_exc is not None or self.dp_active:
             tp = type(callee)
-            if tp is types.FunctionType or (tp is types.MethodType and type(callee.__func__) is types.FunctionType):
+            if tp is types.MethodType:
+                callee = callee.__func__
+                tp = type(callee)
+            if tp is types.FunctionType and not getattr(callee, '_sim_c', False):
+                # (a simulated primitive marked _sim_c stands for a C function: the check happens when it returns)
                 self._delivery_point(t, 'call', code, _line_of(code, offset))
 
     def on_c_return(self, code, offset, callee, arg0):
@@ -715,6 +719,13 @@ class Sim:
         if t.pending_exc is not None or self.dp_active:
             code, line = _innermost_instrumented(sys._getframe(1))
             self._delivery_point(t, 'sys', code, line)
+
+    def c_return_point(self, t):
+        """eval-breaker check after a simulated C function (e.g. lock.acquire) has returned to instrumented code"""
+        if t.pending_exc is not None or self.dp_active:
+            f = sys._getframe(2)        # the caller of the simulated C function
+            if f.f_code in _INSTRUMENTED_SET:
+                self._delivery_point(t, 'cret', f.f_code, f.f_lineno)
 
     def sys_return_point(self, t):
         if t.pending_exc is not None or self.dp_active:
